@@ -33,8 +33,10 @@ def main():
         res = verify_function(db, c)
         print(f"== {key}: paths={res.paths} obligations={len(res.obligations)} t={res.seconds:.2f}s error={res.error}")
         for ob in res.obligations:
-            r, dt, model = solve(ob)
-            print(f"   {ob.name:60s} {str(r):8s} {dt:.2f}s  {ob.info.get('clause','')[:60]}")
+            from .check import solve_obligation
+            r, solver, dt, model, _ = solve_obligation(ob, 20, "/tmp", "dev")
+            r = r + "/" + solver
+            print(f"   {ob.name:60s} {str(r):18s} {dt:.2f}s  {ob.info.get('clause','')[:60]}")
             if model is not None:
                 print("      model:", {str(d): model[d] for d in model.decls()[:12]})
 
